@@ -120,8 +120,16 @@ impl StringPoolBuilder {
     ) -> io::Result<StringPool> {
         let mut strings = Vec::<(String, u16)>::new();
         for (length, refcount) in self.lengths_and_refcounts.into_iter() {
-            let mut buffer = vec![0u8; length as usize];
-            reader.read_exact(&mut buffer)?;
+            // Don't trust the length enough to allocate a buffer of that size
+            // up front; a malformed file can claim up to 4 GiB.
+            let mut buffer = Vec::<u8>::new();
+            reader.by_ref().take(length as u64).read_to_end(&mut buffer)?;
+            if buffer.len() != length as usize {
+                return Err(io::Error::new(
+                    io::ErrorKind::UnexpectedEof,
+                    "failed to fill whole buffer",
+                ));
+            }
             strings.push((self.codepage.decode(&buffer), refcount));
         }
         Ok(StringPool {
